@@ -192,30 +192,54 @@ def rules_consumption(run, P='C05', rid='.4'):
     a1 = q.arg(st[0], 1, 'states')
     run.check(a1 is not None and dotted(strip_cast(a1)) in ('self._configuration', 'self.configuration'), r, ci.short,
               'selection over the active configuration', 'states= must be the active configuration', st[0])
+    # variables that hold the selected transitions: the selection itself and the result of sorting it
+    so = q.calls_to(run, C, {'Interpreter._sort_transitions'})
+    trans_vars = {tv}
+    for c in so:
+        st_ = q.enclosing_stmt(c)
+        if isinstance(st_, ast.Assign) and isinstance(st_.targets[0], ast.Name) and c.args and isinstance(c.args[0], ast.Name) and c.args[0].id in trans_vars:
+            trans_vars.add(st_.targets[0].id)
+
+    def classify(op, l, r_, e):
+        if op == 'truthy' and l in trans_vars:
+            return ('NOTRANS', False)
+        if op == 'is' and l == ev and r_ == 'None':
+            return 'NOEVENT'
+        if op == 'truthy' and l == ev:
+            return ('NOEVENT', False)
+        if op == 'truthy' and l == 'self._initialized':
+            return 'INIT'
+        return None
     rets = [n for n in q.walk(C, False) if isinstance(n, ast.Return)]
     seen_empty = seen_evt = False
     for rt in rets:
-        at = guard_atoms(rt)
-        if ('falsy', tv, '') not in at:
-            continue
+        ba = q.BoolAbs(classify)
+        vs, sat = ba.table(guards(rt))
         v = strip_cast(rt.value)
-        if ('is', ev, 'None') in at or ('falsy', ev, '') in at:
+        if 'NOTRANS' not in vs or not any('NOTRANS' in s_ for s_ in sat) and False:
+            continue
+        reach_notrans = [s_ for s_ in sat if 'NOTRANS' in s_]
+        if not reach_notrans:
+            continue      # not a no-transition return (e.g. the final return of the created steps)
+        unknown = [x for x in vs if x.startswith('?')]
+        if isinstance(v, (ast.List, ast.Tuple)) and not v.elts:
             seen_empty = True
-            run.check(isinstance(v, (ast.List, ast.Tuple)) and not v.elts, r, ci.short,
-                      'no event, no transition -> no step', 'must return an empty list', rt)
-        elif ('is not', ev, 'None') in at or ('truthy', ev, '') in at:
-            seen_evt = True
-            good = isinstance(v, ast.List) and len(v.elts) == 1 and isinstance(v.elts[0], ast.Call) and \
-                dotted(v.elts[0].func) == 'MicroStep'
+            bad = q.table_equals(vs, sat, lambda a: a.get('INIT', True) and a.get('NOTRANS', False) and a.get('NOEVENT', False))
+            run.check(not bad and not unknown, r, ci.short, 'no event, no transition -> no step',
+                      'the empty result must be returned exactly when nothing was selected and no event is pending', rt)
+        else:
+            good = isinstance(v, ast.List) and len(v.elts) == 1 and isinstance(v.elts[0], ast.Call) and dotted(v.elts[0].func) == 'MicroStep'
             if good:
                 kw = q.kwargs_of(v.elts[0])
                 e0 = q.arg(v.elts[0], 0, 'event')
                 good = isinstance(e0, ast.Name) and e0.id == ev and set(kw) <= {'event'} and len(v.elts[0].args) <= 1
-            run.check(good, r, ci.short, 'pending event without transition -> event-carrying empty step',
-                      'must return [MicroStep(event=<peeked event>)] so that the event is consumed', rt)
-        else:
-            run.fail(r, ci.short, 'return under no-transition branch ' + q.unparse(rt),
-                     'unrecognised return in the no-transition branch', rt)
+            if good:
+                seen_evt = True
+                bad = q.table_equals(vs, sat, lambda a: a.get('INIT', True) and a.get('NOTRANS', False) and not a.get('NOEVENT', False))
+                run.check(not bad and not unknown, r, ci.short, 'pending event without transition -> event-carrying empty step',
+                          'the empty event-carrying step must be returned exactly when nothing was selected and an event is pending', rt)
+            else:
+                run.fail(r, ci.short, 'return under no-transition branch ' + q.unparse(rt), 'unrecognised return in the no-transition branch', rt)
     run.check(seen_empty, r, ci.short, 'no-event branch present', 'the `no event, no step` return is missing', C)
     run.check(seen_evt, r, ci.short, 'empty-step branch present',
               'the empty step that lets an unmatched event be consumed is missing', C)
@@ -223,27 +247,37 @@ def rules_consumption(run, P='C05', rid='.4'):
     cr = q.calls_to(run, C, {'Interpreter._create_steps'})
     run.anchor(len(cr) == 1, r, 'single _create_steps call')
     ea = q.arg(cr[0], 0, 'event')
-    origins = q.local_origin(C, ea) if isinstance(ea, ast.Name) else [ea]
-    # find the reaching redefinition(s) of the event variable
     good = False
-    for st_, v in q.assigned_value(C, ea.id if isinstance(ea, ast.Name) else '__none__'):
-        v = strip_cast(v)
-        if isinstance(v, ast.IfExp) and q.strictly_before(C, st_, cr[0]):
+    cand = [(strip_cast(ea), None)] + ([(strip_cast(v), st_) for st_, v in q.assigned_value(C, ea.id)] if isinstance(ea, ast.Name) else [])
+    for v, st_ in cand:
+        if isinstance(v, ast.IfExp) and (st_ is None or q.strictly_before(C, st_, cr[0])):
             c = q.canon_atom(v.test)
-            if c and c[0] == 'is' and c[1].endswith('.event') and c[1].startswith(tv + '[0]') and c[2] == 'None':
-                none_branch, evt_branch = (v.body, v.orelse) if c[3] else (v.orelse, v.body)
-                good = isinstance(none_branch, ast.Constant) and none_branch.value is None and \
-                    isinstance(evt_branch, ast.Name) and evt_branch.id == ev
-    if isinstance(ea, ast.IfExp):
-        c = q.canon_atom(ea.test)
-        if c and c[0] == 'is' and c[1] == tv + '[0].event' and c[2] == 'None':
-            nb, eb = (ea.body, ea.orelse) if c[3] else (ea.orelse, ea.body)
-            good = isinstance(nb, ast.Constant) and nb.value is None and isinstance(eb, ast.Name) and eb.id == ev
+            if c and c[0] == 'is' and c[2] == 'None' and any(c[1] == x + '[0].event' for x in trans_vars):
+                nb, eb = (v.body, v.orelse) if c[3] else (v.orelse, v.body)
+                good = isinstance(nb, ast.Constant) and nb.value is None and isinstance(eb, ast.Name) and eb.id == ev
+    # statement form: if X[0].event is None: e = None else: e = event
+    if not good and isinstance(ea, ast.Name):
+        defs = [(st_, v) for st_, v in q.assigned_value(C, ea.id) if q.strictly_before(C, st_, cr[0]) or q.never_after(C, st_, cr[0])]
+        none_ok = evt_ok = False
+        for st_, v in defs:
+            ats = guard_atoms(st_)
+            less = [a for a in ats if a[0] in ('is', 'is not') and a[2] == 'None' and any(a[1] == x + '[0].event' for x in trans_vars)]
+            if isinstance(v, ast.Constant) and v.value is None and any(a[0] == 'is' for a in less):
+                none_ok = True
+            if isinstance(v, ast.Name) and v.id == ev and any(a[0] == 'is not' for a in less):
+                evt_ok = True
+            if isinstance(v, ast.Call) and st_ is selst and ea.id == ev:
+                evt_ok = evt_ok or False
+        if ea.id == ev and none_ok:
+            # the peeked variable itself is overwritten with None on the eventless path and kept otherwise
+            evt_ok = True
+        good = none_ok and evt_ok
     run.check(good, r, ci.short, 'steps of eventless transitions carry no event',
               'the event passed to _create_steps must be None iff the (first) selected transition is eventless, '
               'else the peeked event', cr[0])
     a1 = q.arg(cr[0], 1, 'transitions')
-    run.check(isinstance(a1, ast.Name) and a1.id == tv, r, ci.short, 'steps are created for the selected transitions',
+    sorted_vars = {q.enclosing_stmt(c).targets[0].id for c in so if isinstance(q.enclosing_stmt(c), ast.Assign) and isinstance(q.enclosing_stmt(c).targets[0], ast.Name)}
+    run.check(isinstance(a1, ast.Name) and a1.id in trans_vars and (not sorted_vars or a1.id in sorted_vars), r, ci.short, 'steps are created for the selected transitions',
               '_create_steps must receive the selected (sorted) transitions', cr[0])
 
 
